@@ -29,3 +29,83 @@ Theorem C02_rerun_restores :
   read (step compute w (ERun t m (deps_of t))) t = Got (value t).
 Proof. exact rerun_restores. Qed.
 Print Assumptions C02_rerun_restores.
+
+(* ---- the control plane (C02/Control.v): driver, evaluator resubmission, machine loss and replacement ---- *)
+Require Import BS.C02.Control BS.C02.ControlSafety BS.C02.ControlLive BS.C02.ControlProofs BS.Gen.C02_params.
+
+Lemma C02_gen_ok_before_assign : ok_before_assign = true.            Proof. reflexivity. Qed.
+Lemma C02_gen_setlocation_before_ok : setlocation_before_ok = true.  Proof. reflexivity. Qed.
+Lemma C02_gen_run_lost_is_default : run_lost_is_default = true.      Proof. reflexivity. Qed.
+Lemma C02_gen_assign_marks_lost : assign_marks_lost_when_machine_lost = true. Proof. reflexivity. Qed.
+Lemma C02_gen_notice_marks_assigned_lost : notice_marks_assigned_lost = true. Proof. reflexivity. Qed.
+Lemma C02_gen_max_consecutive_lost : max_consecutive_lost = 5.       Proof. reflexivity. Qed.
+Lemma C02_gen_scan_read_retries : scan_read_retries = 5.             Proof. reflexivity. Qed.
+
+(* ALL histories: stored outputs are failure-free values; OK => located; OK on a live location => stored there *)
+Theorem C02_ctl_inv_all_histories :
+  forall compute okb max_lost max_retry g roots, wf_graph g roots = true -> forall n h,
+  let w := Control.run compute okb max_lost max_retry g roots (init_world n) h in
+  (forall m t r, In (t, r) (mstore (getm w m)) -> r = value compute g t) /\
+  (forall t, wst w t = TOk -> exists m, wloc w t = Some m) /\
+  (forall t m, wst w t = TOk -> wloc w t = Some m ->
+     malive (getm w m) = true -> mlost (getm w m) = false ->
+     lookup t (mstore (getm w m)) = Some (value compute g t)).
+Proof. exact ctl_inv_all_histories. Qed.
+Print Assumptions C02_ctl_inv_all_histories.
+
+(* ALL histories: a run that reports success returns exactly the failure-free rows *)
+Theorem C02_ctl_success_is_exact :
+  forall compute okb max_lost max_retry g roots, wf_graph g roots = true -> forall n h out,
+  outcome_of (Control.run compute okb max_lost max_retry g roots (init_world n) h) = Some (Success out) ->
+  out = ff_rows compute g roots.
+Proof. exact ctl_success_is_exact. Qed.
+Print Assumptions C02_ctl_success_is_exact.
+
+(* the code's order: an OK task located on a known-lost machine is still between Set(TaskOk) and Assign,
+   and Assign marks it LOST *)
+Theorem C02_ctl_no_stuck_ok :
+  forall compute g roots, wf_graph g roots = true -> forall n h t m,
+  let w := code_run compute g roots (init_world n) h in
+  wst w t = TOk -> wloc w t = Some m -> mlost (getm w m) = true ->
+  wph w t = PMid m /\ wst (code_step compute g roots w (LReply2 t)) t = TLost.
+Proof. exact ctl_no_stuck_ok_code. Qed.
+Print Assumptions C02_ctl_no_stuck_ok.
+
+Theorem C02_ctl_assign_before_ok_refuted :
+  exists (g : list (list nat)) (roots : list nat) (h : list label),
+    wf_graph g roots = true /\
+    let w := Control.run ex_compute false max_consecutive_lost scan_read_retries g roots (init_world 1) h in
+    wst w 0 = TOk /\ wloc w 0 = Some 0 /\ mlost (getm w 0) = true /\ wph w 0 = PNone /\
+    drive ex_compute false max_consecutive_lost scan_read_retries g roots 200 1 w [] = Failed /\
+    (let '(w', tr) := drive_world ex_compute false max_consecutive_lost scan_read_retries g roots 200 1 w [] in
+     wst w' 0 = TOk /\ wcl w' 1 = max_consecutive_lost /\ existsb is_start tr = true) /\
+    let wc := code_run ex_compute g roots (init_world 1) h in
+    wst wc 0 = TLost /\
+    code_drive ex_compute g roots 200 1 wc [] = Success (ff_rows ex_compute g roots).
+Proof. exact ctl_assign_before_ok_refuted. Qed.
+Print Assumptions C02_ctl_assign_before_ok_refuted.
+
+(* RECOVERY *)
+Theorem C02_ctl_recovery :
+  forall compute g roots, wf_graph g roots = true -> forall k spares cs fuel,
+  1 <= k -> length cs < max_consecutive_lost -> length cs <= spares ->
+  code_fuel g roots (2 * length cs) spares <= fuel ->
+  code_drive compute g roots fuel spares (init_world k) (crashes cs) = Success (ff_rows compute g roots).
+Proof. exact ctl_recovery. Qed.
+Print Assumptions C02_ctl_recovery.
+
+(* NEVER BLOCKS FOREVER (model level) *)
+Theorem C02_ctl_never_hangs_model :
+  forall compute g roots, wf_graph g roots = true -> forall k spares inj fuel,
+  env_inj inj -> code_fuel g roots (length inj) spares <= fuel ->
+  code_drive compute g roots fuel spares (init_world k) inj <> OutOfFuel.
+Proof. exact ctl_never_hangs_model. Qed.
+Print Assumptions C02_ctl_never_hangs_model.
+
+Theorem C02_ctl_too_many_losses_is_error :
+  forall compute okb max_lost max_retry g roots w t,
+  active w = true -> mem t (wpend w) = true -> wst w t = TLost -> wunc w t = true ->
+  max_lost <= S (wcl w t) ->
+  outcome_of (Control.step compute okb max_lost max_retry g roots w (LReturn t)) = Some Failed.
+Proof. exact ctl_too_many_losses_is_error. Qed.
+Print Assumptions C02_ctl_too_many_losses_is_error.
